@@ -979,6 +979,22 @@ class Check(common.Check):
                     if got != f'i{ACTION_NUM[act]}':
                         return {'what': f'op #{i} `{line}`: add action {act} sent as {got}',
                                 'signature': f'create:action:{op}', 'index': i}
+            # -- server-wide free: one /g_freeAll per default group of EVERY client (all_users) or the client's own
+            if op == 'freedg' and tst.startswith('ok'):
+                own = (2 ** 25 - 1) * case['opts'].get('client_id', 0) + 1
+                want = ([f'/g_freeAll i{g}' for g in sorted(self.default_groups(case))]
+                        if line.split()[1] == 'T' else [f'/g_freeAll i{own}'])
+                if tmsgs != want:
+                    return {'what': f'op #{i} `{line}` must emit {want}, emitted {tmsgs}',
+                            'signature': 'server:free_default_group', 'index': i}
+            # -- /b_gen flags: normalize = 1, as_wavetable = 2, clear_first = 4 (command reference)
+            if op in ('bgen', 'bsine1', 'bsine2', 'bsine3', 'bcheby') and tst.startswith('ok') and tmsgs:
+                w = line.split()
+                fl = sum(v for v, t in zip((1, 2, 4), w[-3:]) if t == 'T')
+                ts = split_tokens(tmsgs[0])
+                if len(ts) < 4 or ts[3] != f'i{fl}':
+                    return {'what': f'op #{i} `{line}`: flags normalize/wavetable/clear = {w[-3:]} are {fl} '
+                                    f'(1 + 2 + 4), sent `{" ".join(ts[:4])}`', 'signature': 'bgen:flags', 'index': i}
             # -- release: forced release of `t` seconds is gate = -(t + 1) (EnvGen reference), <= 0: -1, None: 0
             if op == 'release' and tst.startswith('ok') and tmsgs:
                 from fractions import Fraction
